@@ -522,11 +522,25 @@ def r7(db, rep):
         return
     rec = "Tins::IP"
     try:
-        m = bp.Machine(db)
-        this = m.new_region("this", "m")
-        thisloc = bp.Loc(this, 0, {"k": "rec", "name": rec, "size": db.records[rec]["size"]})
-        res = m.call(fs[0], thisloc, [])
-        bit = bp.Frame(m, fs[0], thisloc, 0).truth(res)
+        thist = {"k": "rec", "name": rec, "size": db.records[rec]["size"]}
+        thisloc = bp.Loc("this", 0, thist)
+
+        def run_(setup):
+            m = bp.Machine(db)
+            setup(m)
+            this = m.new_region("this", "m")
+            rv_ = m.call(fs[0], bp.Loc(this, 0, thist), [])
+            if rv_ is None:
+                raise bp.Unsupported("a path returns no value")
+            return bp.Frame(m, fs[0], bp.Loc(this, 0, thist), 0).truth(rv_)
+        # every path through the function (early returns on a tested flag included): the result is the disjunction of
+        # path condition AND value
+        bit = 0
+        for pc, res in bp.explore_paths(run_):
+            if res == "throw":
+                raise bp.Unsupported("is_fragmented can throw")
+            res = 1 if res is True else (0 if res is False else res)
+            bit = bp.b_or(bit, bp.b_and(pc, res))
         from rules.c15 import result_bits
         sup_want = set()
         for nm in ("fragment_offset", "flags"):
